@@ -112,6 +112,71 @@ def _hash_obs(handler_or_ctx, h):
     return ("hash", ident, ok)
 
 
+def _own_instance_locks(obj):
+    """locks an object keeps in its own instance dict (created per instance, so Harness.locks() cannot see them) are
+    replaced by scheduler-aware ones too"""
+    import threading
+
+    s = _CUR.get("sched")
+    if s is None:
+        return
+    lock_types = (type(threading.Lock()), type(threading.RLock()))
+    d = object.__getattribute__(obj, "__dict__")
+    for k, v in list(d.items()):
+        if isinstance(v, lock_types):
+            d[k] = s.make_lock(f"instance.{k}")
+
+
+class LazyTwo(Harness):
+    """two lazily configured contexts.  The onload callback of the first waits (on a scheduler-aware gate) for the thread
+    that makes the first use of the SECOND context: a single thread never waits for anything here, so two threads must
+    not wait for each other either -- the initialisation of one context may not hold up the first use of another"""
+
+    name = "lazy_two_contexts"
+
+    def __init__(self, ops):
+        self.ops = ops
+
+    def codes(self):
+        from passlib.context import CryptContext, LazyCryptContext
+
+        return [LazyCryptContext._lazy_init, LazyCryptContext.__getattribute__, CryptContext.__init__]
+
+    def fresh(self):
+        import threading
+
+        from passlib.context import LazyCryptContext
+
+        s = _CUR.get("sched")
+        gate = s.make_lock("harness.gate") if s is not None else threading.RLock()
+
+        def onload(**kwds):
+            with gate:  # "wait until the other thread is done with its part"
+                pass
+            return kwds
+
+        a = LazyCryptContext(["sha256_crypt", "md5_crypt"], onload=onload, sha256_crypt__rounds=1000)
+        b = LazyCryptContext(["md5_crypt", "des_crypt"])
+        _own_instance_locks(a)
+        _own_instance_locks(b)
+        return {"a": a, "b": b, "gate": gate}
+
+    def body(self, st, op):
+        a, b, gate = st["a"], st["b"], st["gate"]
+        K = _known()
+        if op == "first_use_a":
+            return lambda: (tuple(a.schemes()), a.verify(PW, K["md5_crypt"]))
+        if op == "gate_first_use_b":
+            def f():
+                with gate:
+                    return (tuple(b.schemes()), b.verify(PW, K["md5_crypt"]))
+            return f
+        raise KeyError(op)
+
+    def post(self, st):
+        return (type(st["a"]).__name__, type(st["b"]).__name__, tuple(st["a"].schemes()), tuple(st["b"].schemes()))
+
+
 class LazyContext(Harness):
     def __init__(self, onload, ops):
         self.onload = onload
@@ -135,6 +200,7 @@ class LazyContext(Harness):
             ctx = LazyCryptContext(["sha256_crypt", "md5_crypt"], onload=onload, deprecated=["md5_crypt"])
         else:
             ctx = LazyCryptContext(["sha256_crypt", "md5_crypt"], **kw)
+        _own_instance_locks(ctx)
         return {"ctx": ctx}
 
     def body(self, st, op):
@@ -703,6 +769,8 @@ def make_harness(spec):
         return LazyContext(False, ops)
     if kind == "lazy_context_onload":
         return LazyContext(True, ops)
+    if kind == "lazy_two_contexts":
+        return LazyTwo(ops)
     if kind == "lazy_b64":
         return LazyB64(ops)
     if kind.startswith("backend_"):
@@ -887,6 +955,7 @@ def harness_specs(quick):
     add("lazy_context", ("verify", "identify"), b2)
     add("lazy_context", ("hash", "verify"), b2)
     add("lazy_context_onload", ("verify", "needs_update"), b2)
+    add("lazy_two_contexts", ("first_use_a", "gate_first_use_b"), b2)
     add("lazy_b64", ("encode", "decode"), b2)
     add("lazy_b64", ("encode", "decode"), 1 if quick else 2, "instruction")
     add("registry", ("get", "attr"), b2)
